@@ -189,12 +189,21 @@ theorem gen_eq_model_parse_loop_partial (cls : Char → CClass) (info : Info) (f
       PM.parseLoop cls info fuzzy l.length l.length 0 0 { l := l } :=
   PGen.parseLoop_eq cls info fuzzy hc fuel { l := l } 0 (by simpa using hf)
 
+/-- `parser._recombine_skipped(tokens, skipped_idxs)`: the loop over `enumerate(sorted(skipped_idxs))` gluing neighbouring
+    skipped tokens — for every token list and every index list (any order, repeats, out of range) -/
+theorem gen_eq_model_recombine_skipped (info : Info) (tokens : List Token) (skipped : List Nat) :
+    Gen.P.recombineSkipped info tokens skipped = PM.recombineSkipped tokens skipped :=
+  PGen.recombineSkipped_eq info tokens skipped
+
+example : Gen.P.recombineSkipped_loop (Info.default false false 2026 2000) [0, 1, 2, 5]
+    [tk "foo", tk " ", tk "bar", tk " ", tk "19", tk "baz"] [0, 1, 2, 5] 0 [] = .ok [tk "foo bar", tk "baz"] := by decide
+
 /-- the whole of `parser._parse(timestr, dayfirst, yearfirst, fuzzy, fuzzy_with_tokens)` as written now: the flag defaults,
     lexing, the token loop, `resolve_ymd` and the result fields, the `except (IndexError, ValueError, InvalidOperation)`
     boundary, `info.validate(res)` (whose AST is checked at translation time to return True only), the fuzzy token
     recombination — equal to the model's `parseTokens` on the lexed text, for every text and flag combination, given at
-    least as much fuel as there are tokens.  Named primitives on both sides: the lexer (`_timelex.split` ↦ `PM.lex`) and
-    `_recombine_skipped` (↦ `PM.recombineSkipped`); same `_century ≥ 100` hypothesis as `validate`. -/
+    least as much fuel as there are tokens.  One named primitive on both sides: the lexer (`_timelex.split` ↦ `PM.lex`);
+    `_recombine_skipped` is the translated one; same `_century ≥ 100` hypothesis as `validate`. -/
 theorem gen_eq_model_parse_partial (cls : Char → CClass) (info : Info) (fuel : Nat) (timestr : List Char)
     (dayfirst yearfirst : Option Bool) (fuzzy fuzzyWithTokens : Bool) (hc : 100 ≤ info.century)
     (hf : (PM.lex cls timestr).length ≤ fuel) :
